@@ -57,6 +57,15 @@ func parserGrammars(includeAmbiguous, includeLexOnly bool) []*corpus.Grammar {
 	return out
 }
 
+func hasErrorAlt(g *corpus.Grammar) bool {
+	for _, a := range g.Alts() {
+		if a.Error {
+			return true
+		}
+	}
+	return false
+}
+
 func RunC03(c *Ctx) error {
 	g, err := sut.BuildGocc(c.Root, false)
 	if err != nil {
@@ -149,6 +158,17 @@ func RunC03(c *Ctx) error {
 					job.FaultKinds = []string{"error", "panic"}
 				}
 				jobs = append(jobs, job)
+			}
+			// inputs that are not sentences: where error recovery makes Parse succeed anyway,
+			// terminal attributes must still be the scanner's own token objects
+			if hasErrorAlt(gr) {
+				for k := 0; k < nSent/2+2; k++ {
+					s := gr.Derive(r.Fork("rs"), 2+r.Intn(8))
+					toks := gr.Mutate(r, s.Tokens, 1+r.Intn(4))
+					txt, laid := gr.Layout(r, toks)
+					useTok := !drv.HasLexer || r.Chance(1, 5)
+					jobs = append(jobs, harness.Job{ID: len(jobs), Kind: "c03", Variant: v.Name, Knob: stackKnobs[r.Intn(len(stackKnobs))], NoExpect: true, In: tokensInput(txt, laid, useTok, "bad")})
+				}
 			}
 		}
 		// split into batches of ~40 jobs so that all cores are used
